@@ -211,6 +211,11 @@ static void run_equiv(uint64_t idx, pv_rng* rng) {
     const char* cls; char* pw = pv_gen_password(rng, &cls);
     char* a = pv_nfc_alloc(pw); char* b = pv_nfkd_alloc(pw);
     if (strlen(b) >= POLYSEED_STR_SIZE) { free(a); free(b); free(pw); return; }
+    /* the three spellings must really be canonically equivalent.  They are produced by libutf8proc, and its NFC is not always: 2.8 drops
+     * U+11A7 after a Hangul LV syllable (NFC(U+CAA0 U+11A7) = U+CAA0; Python's unicodedata keeps it), so NFKD(NFC(x)) != NFKD(x) for such
+     * strings.  Such a case says nothing about polyseed and is skipped (found by the thorough tier: 2 of 1.5 million random passwords). */
+    { char* na = pv_nfkd_alloc(a); char* nb = pv_nfkd_alloc(b); bool same = !strcmp(na, b) && !strcmp(nb, b); free(na); free(nb);
+      if (!same) { PV_COUNT("equivalent_spellings.skipped(the normaliser's NFC form is not equivalent)", 1); free(a); free(b); free(pw); return; } }
     pv_w->kdf_mode = 0;
     uint8_t ia[32], ib[32], ic[32];
     const char* forms[3] = { a, b, pw }; uint8_t* outs[3] = { ia, ib, ic };
